@@ -46,11 +46,13 @@ class Snapshot:
         self.color(light.get_color())
 
     def multizone(self, light):
-        for number, color in enumerate(light.get_zone_colors()):
+        for number, color in enumerate(light.get_zone_colors() or []):
             self.zone(light, number, color)
 
     def matrix(self, light):
         light_matrix = light.get_matrix()
+        if light_matrix is None:
+            return
         mat = light_matrix.matrix
         for row in range(0, light_matrix.height):
             for column in range(0, light_matrix.width):
@@ -217,6 +219,8 @@ class TextSnapshot(Snapshot):
 
     def matrix(self, light):
         light_matrix = light.get_matrix()
+        if light_matrix is None:
+            return
         mat = light_matrix.matrix
         for row in range(0, light_matrix.height):
             for col in range(0, light_matrix.width):
